@@ -17,7 +17,7 @@ best-first order (direction-aware), i.e. exactly min(limit, available) and never
 of C08.O4 keeps exactly the candidates strictly better than the (limit - active)-th: the free slots when fitness values are
 distinct; (R10.5) filter chains are applied in list order, tree-level after deme-level, and only parents left with candidates
 are returned; (R10.6) SkipSameSprout keeps a candidate iff no existing seed row matches it in every coordinate (np.isclose),
-where the seed rows are the seeds of all children of the parent's level."""
+where the seed rows are the seeds of all children of the parent's level. Round-3/4 extensions: the parents LevelLimit ranks are exactly the candidates' keys of the level; SkipSameSprout compares with the seeds of the target level only and never looks individuals up by `==`; the local-method extra candidate comes from the deme that finished in the current metaepoch."""
 NOTE = """The numeric verdicts of np.isclose are not evaluated. User-written filters outside pyhms are not analysed."""
 TECHNIQUE = "subset-provenance (filters only shrink) and order/cardinality shape analysis over the filter classes' ASTs; shared polarity rules with C13"
 EXPLANATION = """
